@@ -26,6 +26,8 @@ type parser struct {
 	f string
 	x lexing.Tokener
 	*lexing.Parser
+
+	depth int // nesting of the objects and lists being parsed
 }
 
 func newParser(f string, r io.Reader) (*parser, *lexing.Recorder) {
